@@ -154,9 +154,9 @@ def _full(spec, ctx, R):
     elif c in ("int", "pure_imag", "single_axis"):
         A = gen.entries(rng, c, m, n)
     elif c == "scaled_small":
-        A = refq.randq(rng, m, n) * 1e-8
+        A = refq.randq(rng, m, n) * float(rng.choice([1e-8, 1e-14]))
     elif c == "scaled_big":
-        A = refq.randq(rng, m, n) * 1e8
+        A = refq.randq(rng, m, n) * float(rng.choice([1e8, 1e14]))
     elif c == "layout":
         A = gen.layout(refq.randq(rng, m, n), gen.LAYOUTS[spec["idx"] % len(gen.LAYOUTS)])
     elif c in ("real_only", "unit_identity", "upper_tri", "diag"):
